@@ -32,6 +32,8 @@ DEV_WHAT = {
                      "bits without sign-extending the 32-bit result",
     "AuipcFromNextPc": "AUIPC adds the immediate to the address of the NEXT instruction (pc + 4 + imm): the pc update of "
                        "the __npc wrapper runs before the semantics reads pc",
+    "UImmZeroExtended": "RV64 LUI/AUIPC zero-extend the 32-bit U-immediate to 64 bits (the manual: sign-extend), "
+                        "e.g. `lui x1, 0x80000` gives 0x0000000080000000",
     "Unimplemented": "the instruction decodes but has no semantics function: applying it changes nothing, not even pc",
 }
 
@@ -320,7 +322,16 @@ def report(ctx, traces, verdicts, xlen, kind):
             word = "%08x" % unlimbs(s["w"])
             rep = {"isa": "rv%d" % xlen, "source": kind, "word": word, "step": s, "verdict": f}
             if f["devs"]:
-                for d in f["devs"]:
+                # several smallest deviation sets may reproduce the same post-state (e.g. pc + 4 = 0): the case is
+                # attributed to a set made of listed findings when there is one
+                known = set(k.get("key") for k in ctx.known)
+                cands = sorted(sorted(c) for c in f["devs"])
+                pick = cands[0]
+                for c in cands:
+                    if all("C06:rv%d:%s:%s" % (xlen, f["op"], d) in known for d in c):
+                        pick = c
+                        break
+                for d in pick:
                     ctx.fail("C06:rv%d:%s:%s" % (xlen, f["op"], d),
                              "rv%d %s (word %s, amoco mnemonic %s): %s" % (xlen, f["op"], word, s.get("mn"), DEV_WHAT.get(d, d)),
                              rep)
